@@ -547,6 +547,21 @@ def run_case(ctx, rng, idx, params, tier):
         for step in range(rng.randint(1, 4)):
             a = gen.ty(rng.randint(1, 4))
             b = derive(rng, a, gen)
+            if o_s and rng.random() < 0.35:
+                # a pair built from the partial solution itself: a solved variable against an
+                # unsolved variable (or a small term around one) that its own solution mentions, or
+                # two solved variables — the occurs check has to look through prior solutions
+                solved = sorted(v for v in o_s if v[0] == "var")
+                if solved:
+                    v = rng.choice(solved)
+                    inner = sorted({u for u in subterms(resolve_safe(v, o_s)) if is_var(u) and u[0] == "var"
+                                    and u not in o_s})
+                    if inner and rng.random() < 0.7:
+                        u = rng.choice(inner)
+                        a, b = rng.choice([(u, v), (("tuple", (u,)), v), (u, ("tuple", (v,))),
+                                           (("tuple", (u, v)), ("tuple", (v, u)))])
+                    elif len(solved) >= 2:
+                        a, b = rng.sample(solved, 2)
             if rng.random() < 0.5:
                 a, b = b, a
             try:
@@ -630,6 +645,13 @@ def run_case(ctx, rng, idx, params, tier):
         a = g.ty(3)
         rec["sample"] = {"s": repr(a), "t": repr(derive(rng, a, g))}
     return rec
+
+
+def resolve_safe(t, s):
+    try:
+        return resolve(t, s)
+    except RecursionError:
+        return t
 
 
 def subterms(t):
